@@ -80,7 +80,8 @@ pub fn emit(ctx: &mut Ctx, items: &[It], sort: bool, shuffle: bool, padded: bool
         v.push(it.id);
         v.push(it.size as u64);
     }
-    let batches = run(items, sort, shuffle, padded, prefetch, limit, seed);
+    // a panic of the implementation is reproduced (and reported with this request) by the exec side
+    let batches = std::panic::catch_unwind(|| run(items, sort, shuffle, padded, prefetch, limit, seed)).unwrap_or_default();
     v.push(batches.len() as u64);
     for b in &batches {
         enc_nats(&mut v, b.iter().map(|x| x.id));
@@ -113,6 +114,18 @@ pub fn run_c06(ctx: &mut Ctx) {
                     for pf in [0usize, 2] {
                         emit(ctx, &items, flags & 1 != 0, flags & 2 != 0, flags & 4 != 0, pf, limit, 7);
                     }
+                }
+            }
+        }
+    }
+    if ctx.first_shard() {
+        // limits at the top of the usize range ("no limit"): the arithmetic on limit and prefetch factor must not overflow
+        let m = u64::MAX as usize;
+        for limit in [m, m - 1, m / 2, m / 2 + 1, m / 3 + 1] {
+            for flags in 0..8u64 {
+                for pf in [0usize, 1, 2, 3, m] {
+                    let items: Vec<It> = [3usize, 0, 8, 1, 5, 2].iter().enumerate().map(|(i, &s)| It { id: i as u64, size: s }).collect();
+                    emit(ctx, &items, flags & 1 != 0, flags & 2 != 0, flags & 4 != 0, pf, limit, 7);
                 }
             }
         }
